@@ -48,14 +48,21 @@ def gen(rng):
             elif r < 0.75:
                 op = rng.choice((1, 2))
                 k = rng.choice((2, 3))
+                if op == 1:
+                    # text that is valid as a whole, cut at arbitrary byte positions (inside code points too)
+                    whole = "".join(rng.choice(("a", "é", "€", "\U0001F600", "z", " ")) for _ in range(rng.randrange(1, 7))).encode("utf-8")
+                    cuts = sorted(rng.randrange(0, len(whole) + 1) for _ in range(k - 1))
+                    pieces = [whole[a:b] for a, b in zip([0] + cuts, cuts + [len(whole)])]
+                else:
+                    pieces = [rng.randbytes(2) for _ in range(k)]
                 for j in range(k):
-                    burst.append({"fin": 1 if j == k - 1 else 0, "op": op if j == 0 else 0, "hex": ("61" * rng.randrange(0, 3)) if op == 1 else rng.randbytes(2).hex()})
+                    burst.append({"fin": 1 if j == k - 1 else 0, "op": op if j == 0 else 0, "hex": pieces[j].hex()})
                     nframes += 1
             elif r < 0.9:
-                burst.append({"fin": 1, "op": 9, "hex": rng.randbytes(rng.randrange(0, 4)).hex()})
+                burst.append({"fin": 1, "op": 9, "hex": rng.randbytes(rng.choice((0, 1, 2, 3, 124, 125))).hex()})
                 nframes += 1
             else:
-                burst.append({"fin": 1, "op": 10, "hex": rng.randbytes(rng.randrange(0, 4)).hex()})
+                burst.append({"fin": 1, "op": 10, "hex": rng.randbytes(rng.choice((0, 1, 2, 3, 124, 125))).hex()})
                 nframes += 1
         if burst:
             items.append({"t": t, "frames": burst})
